@@ -85,15 +85,21 @@ def gen(ctx):
     # is the one place where "the amount or kind of white space" carries meaning (round 5: a process-wide memo of compiled programs
     # keyed by the white-space-squeezed text gave the second twin the first one's image). Both orders, one process.
     for _k in range(24):
-        _a = "(def (Report (x 0)) (c %d)) (when true (:= Report.x %d) # then\n (:= c 5) (report))" % (_k, 100 + _k)
-        _b = "(def (Report (x 0)) (c %d)) (when true (:= Report.x %d) # then (:= c 5) (report)\n)" % (_k, 100 + _k)
-        _c = "(def (Report (x 0)) (c %d)) (when true (:= Report.x %d) # then (:= c 5)\n (report))" % (_k, 100 + _k)
-        for _s in ((_a, _b, _c) if _k % 2 else (_c, _b, _a)):
-            yield Case("CMP", "%s - -" % G.hx(_s), tags=("whitespace-lookalike-twins",))
-        _d = "(def (Report (x 0))) # first\n (when (> Ack.bytes_acked %d) (report)) (when true (:= Report.x 1))" % _k
-        _e = "(def (Report (x 0))) # first (when (> Ack.bytes_acked %d) (report))\n (when true (:= Report.x 1))" % _k
-        for _s in ((_d, _e) if _k % 2 else (_e, _d)):
-            yield Case("CMP", "%s - -" % G.hx(_s), tags=("whitespace-lookalike-twins",))
+        _h = "(def (Report (x 0)) (c %d)) (when true (:= Report.x %d)" % (_k, 100 + _k)
+        _tw = [(_h + " # then\n (:= c 5) (report))", _h + " (:= c 5) (report))"),
+               (_h + " # then (:= c 5) (report)\n)", _h + " )"),
+               (_h + " # then (:= c 5)\n (report))", _h + " (report))")]
+        _g = "(def (Report (x 0))) %s(when (> Ack.bytes_acked %d) (report)) %s(when true (:= Report.x 1))"
+        _tw += [(_g % ("# first\n ", _k, ""), _g % ("", _k, "")),
+                ("(def (Report (x 0))) # first (when (> Ack.bytes_acked %d) (report))\n (when true (:= Report.x 1))" % _k,
+                 "(def (Report (x 0))) (when true (:= Report.x 1))")]
+        if _k % 2:
+            _tw.reverse()
+        # each twin is a layout (one comment line added) of its own comment-free form: same image as THAT, whatever was compiled before
+        for _s, _plain in _tw:
+            yield Case("CMP", "%s - -" % G.hx(_s), tags=("whitespace-lookalike-twins",), meta=("CMP %s - -" % G.hx(_plain),))
+        for _s, _plain in _tw:
+            yield Case("CMP", "%s - -" % G.hx(_plain), tags=("whitespace-lookalike-twins",))
     # several threads compiling at the same time: a compilation shares nothing with the others (but the uid counter)
     for _ in range(60 if ctx.thorough else 6):
         k = rng.choice([2, 4, 8, 16, 32])
